@@ -327,9 +327,29 @@ def splice_fn(text, spec, lo=0, hi=None):
     def add(pos, s, order=0):
         ins.append((pos, order, s))
 
-    if bo is None:
-        raise LostAnchor('fn %s has no body' % spec.name)
     indent = re.match(r'[ \t]*', text[fs:]).group(0)
+    if bo is None:
+        # bodiless declaration (trait method): clauses go before the ';'
+        semi = end - 1
+        add(fs, indent + '/*vx:contracted*/\n')
+        if spec.ret:
+            r = _sig_return(text, masked, sig_end, semi)
+            if r is None:
+                raise LostAnchor('fn %s: no return type to name' % spec.name)
+            add(r[0], '(%s: ' % spec.ret)
+            add(r[1], ')')
+        cl = []
+        if spec.requires:
+            cl.append(indent + '    requires')
+            for cid, t in spec.requires:
+                cl.append(mark(_ind(t, indent + '        ') + ',', cid))
+        if spec.ensures:
+            cl.append(indent + '    ensures')
+            for cid, t in spec.ensures:
+                cl.append(mark(_ind(t, indent + '        ') + ',', cid))
+        if cl:
+            add(semi, '\n' + '\n'.join(cl) + '\n' + indent)
+        return apply_insertions(text, ins)
     # attributes
     add(fs, indent + '/*vx:contracted*/\n')
     for a in spec.attrs:
